@@ -89,6 +89,8 @@ fn main() {
         // C03
         "c03" => c03::histories(arg_u64(&args, 2, 1), arg_u64(&args, 3, 100), arg_u64(&args, 4, 12)),
         "c03-directed" => c03::directed(arg_u64(&args, 2, 400)),
+        // build / interpreter probe: runs no code of the runtime, so that a defect there shows up in a monitored job, not in the set-up step
+        "ping" => {}
         _ => {
             eprintln!("usage: rtmon <c16-roundtrip|c16-utf8-exh|c16-utf8-lead4|c16-utf8-rand|c16-alloc|c12-exh|c12-rand|c03|c03-directed> ...");
             std::process::exit(64);
